@@ -2,6 +2,8 @@ import RpmVerif.Model.Vercmp
 /-!
 # Model of the textual forms in `src/version.rs`: `parse_values`, `Display`, normalized forms.
 Strings are lists of code points (`Str`). ':' = 58, '-' = 45, '.' = 46, '0' = 48.
+Every function here is total and pure: `str::split_once`, `rsplit_once`, `rmatch_indices` and `format!` have no
+failure mode, and neither have the definitions below (there is no `Out` in this file on purpose).
 -/
 namespace RpmVerif.Version
 open RpmVerif.Vercmp
@@ -40,9 +42,25 @@ def Evr.toStr (e : Evr) : Str :=
 def Evr.normalized (e : Evr) : Str :=
   epochOr0 e.epoch ++ [58] ++ e.version ++ [45] ++ e.release
 
-/-- `Nevra::parse_values` (as in the source: name split at the FIRST '-') -/
+/-- `nevra.rmatch_indices(c).nth(1)` followed by `(&nevra[..i], &nevra[i + 1..])`: split at the
+SECOND-TO-LAST occurrence of `c`; `none` when `c` occurs fewer than two times.
+(Walking from the left: the tail has no second-to-last `c` exactly when it holds at most one `c`;
+then the head is the split point iff it is `c` and the tail holds one.)
+No partiality is hidden here: in the Rust code `i` is the byte index of a matched '-', which is
+ASCII, so `i` and `i + 1` are char boundaries and `i + 1 ≤ len`; the two slices cannot panic. -/
+def rsplitOnce2 (c : Nat) : Str → Option (Str × Str)
+  | [] => none
+  | x :: r =>
+      match rsplitOnce2 c r with
+      | some (a, b) => some (x :: a, b)
+      | none => if x = c ∧ c ∈ r then some ([], r) else none
+
+/-- `Nevra::parse_values` (source after the fix 1c849b6: the name ends at the second-to-last '-';
+with fewer than two dashes the old first-dash split is the fallback) -/
 def nevraParseValues (s : Str) : Str × Str × Str × Str × Str :=
-  let (name, evra) := (splitOnce 45 s).getD (s, [])
+  let (name, evra) := match rsplitOnce2 45 s with
+    | some (n, r) => (n, r)
+    | none => (splitOnce 45 s).getD (s, [])
   let (epoch, vra) := (splitOnce 58 evra).getD ([], evra)
   let (version, ra) := (splitOnce 45 vra).getD (vra, [])
   let (release, arch) := (rsplitOnce 46 ra).getD (ra, [])
